@@ -79,4 +79,75 @@ func StarvingMutex.Unlock
   ghost before unlock: owe readerCond if f.pendingWriters == 0
   ghost before unlock: owe writerCond if f.pendingWriters > 0
   ensures unlocked(f.mutex)
+
+-- ---------------------------------------------------------------------------------------------------------------
+-- DAGMutex registry (under d.Mutex): an entity has a mutex exactly while it has consumers, and the counter is the
+-- number of consumers registered (holders and waiters); the last consumer that leaves removes the entity (and, being
+-- the only one that knows the mutex, simply drops it); leaving an entity that has no consumer is a misuse and panics.
+-- Contracts instantiated for string identifiers.
+type DAGMutex
+  invariant self.consumerCounter != nil && self.mutexes != nil && self.consumerCounter.m != nil && self.mutexes.m != nil && self.consumerCounter.opts != nil && self.mutexes.opts != nil && self.consumerCounter != self.mutexes && self.consumerCounter.m != self.mutexes.m
+  invariant forall k T :: has(self.mutexes.m, k) <==> has(self.consumerCounter.m, k)
+  invariant forall k T :: has(self.consumerCounter.m, k) ==> self.consumerCounter.m[k] >= 1 && self.mutexes.m[k] != nil
+
+func DAGMutex.registerMutex
+  instantiate T: string
+  opt sequential
+  opt assume-no-overflow                      -- fewer than 2^63 consumers of one entity
+  requires d != nil && inv(d) && unlocked(d.consumerCounter.mutex) && unlocked(d.mutexes.mutex)
+  modifies map(d.consumerCounter.m), map(d.mutexes.m)
+  ensures inv(d) && mutex != nil && has(d.mutexes.m, id) && d.mutexes.m[id] == mutex
+  ensures old(has(d.mutexes.m, id)) ==> mutex == old(d.mutexes.m[id]) && d.consumerCounter.m[id] == old(d.consumerCounter.m[id]) + 1
+  ensures !old(has(d.mutexes.m, id)) ==> fresh(mutex) && d.consumerCounter.m[id] == 1
+  ensures forall k T :: k != id ==> (has(d.mutexes.m, k) <==> old(has(d.mutexes.m, k))) && d.mutexes.m[k] == old(d.mutexes.m[k]) && d.consumerCounter.m[k] == old(d.consumerCounter.m[k])
+
+func DAGMutex.unregisterMutex
+  instantiate T: string
+  opt sequential
+  panics-iff !has(d.consumerCounter.m, id)
+  requires d != nil && inv(d) && unlocked(d.consumerCounter.mutex) && unlocked(d.mutexes.mutex)
+  modifies d.consumerCounter.m, d.consumerCounter.deletedKeys, d.mutexes.m, d.mutexes.deletedKeys, allmaps(d.consumerCounter.m), allmaps(d.mutexes.m)
+  ensures inv(d)
+  -- the last consumer: the entity disappears, nothing is handed back
+  ensures old(d.consumerCounter.m[id]) == 1 ==> mutex == nil && !has(d.mutexes.m, id) && !has(d.consumerCounter.m, id)
+  -- otherwise one consumer less, and the entity's mutex is handed back for the release
+  ensures old(d.consumerCounter.m[id]) > 1 ==> mutex == old(d.mutexes.m[id]) && has(d.mutexes.m, id) && d.mutexes.m[id] == mutex && d.consumerCounter.m[id] == old(d.consumerCounter.m[id]) - 1
+  ensures forall k T :: k != id ==> (has(d.mutexes.m, k) <==> old(has(d.mutexes.m, k))) && (has(d.consumerCounter.m, k) <==> old(has(d.consumerCounter.m, k)))
+  ensures forall k T :: k != id && has(d.mutexes.m, k) ==> d.mutexes.m[k] == old(d.mutexes.m[k]) && d.consumerCounter.m[k] == old(d.consumerCounter.m[k])
+
+-- the public operations: the registry is only touched under d.Mutex (one critical section per call), the entity's own
+-- mutex is acquired / released outside of it (a blocked Lock must not block the registry), and it is the mutex of the
+-- entity that was named
+func DAGMutex.Lock
+  instantiate T: string
+  opt sequential
+  opt assume-no-overflow
+  opt twophase Mutex
+  requires d != nil && inv(d) && unlocked(d.Mutex) && unlocked(d.consumerCounter.mutex) && unlocked(d.mutexes.mutex)
+  modifies everything
+  ghost before call DAGMutex.registerMutex: assert held(d.Mutex)
+  ghost before call StarvingMutex.Lock: assert unlocked(d.Mutex) && has(d.mutexes.m, id) && arg0 == d.mutexes.m[id]
+  ensures unlocked(d.Mutex)
+
+func DAGMutex.Unlock
+  instantiate T: string
+  opt sequential
+  opt twophase Mutex
+  panics-iff !has(d.consumerCounter.m, id)
+  requires d != nil && inv(d) && unlocked(d.Mutex) && unlocked(d.consumerCounter.mutex) && unlocked(d.mutexes.mutex)
+  modifies everything
+  ghost before call DAGMutex.unregisterMutex: assert held(d.Mutex)
+  ghost before call StarvingMutex.Unlock: assert unlocked(d.Mutex) && arg0 == old(d.mutexes.m[id]) && old(d.consumerCounter.m[id]) > 1
+  ensures unlocked(d.Mutex)
+
+func DAGMutex.registerMutexes
+  instantiate T: string
+  opt sequential
+  opt assume-no-overflow
+  requires d != nil && inv(d) && unlocked(d.Mutex) && unlocked(d.consumerCounter.mutex) && unlocked(d.mutexes.mutex)
+  modifies map(d.consumerCounter.m), map(d.mutexes.m)
+  loop 1 invariant held(d.Mutex) && inv(d) && len(mutexes) == len(ids) && fresh(mutexes)
+  loop 1 invariant forall i Int :: 0 <= i && i <= rangeindex ==> mutexes[i] != nil && has(d.mutexes.m, ids[i]) && mutexes[i] == d.mutexes.m[ids[i]]
+  ensures unlocked(d.Mutex) && inv(d) && len(mutexes) == len(ids)
+  ensures forall i Int :: 0 <= i && i < len(ids) ==> mutexes[i] != nil && has(d.mutexes.m, ids[i]) && mutexes[i] == d.mutexes.m[ids[i]]
 @*/
